@@ -303,6 +303,12 @@ def c02(run, ck):
 
 def c18(run, ck):
     parse_stage(run, ck, 500, 10000)
+    # error locations of arbitrary rejected text (grammar-derived, token-mutated, token soup, random UTF-8)
+    out = os.path.join(run.work, "fuzz.ndjson")
+    run.drive("fuzz", 40000 if run.thorough else 2500, out)
+    verdicts, recs = run.validate(out, "Trace_Parse", cfg="Trace_Parse.cfg", parts=8, label="fuzz")
+    verdicts = [v for v in verdicts if "location" in v[2] or "span" in v[2]]
+    simple_violations(run, ck, verdicts, recs, "fuzz", describe=lambda rec, v: parse_shape(rec))
     return dict(rule="generated expressions rendered with random spaces, tabs, newlines and multi-byte text: token spans increasing / inside the source / re-lexing to the same token; every node span equals the span the grammar assigns "
                      "(first token start to last token end); sampled sub-expressions compiled on their own give the same subtree; corrupted variants: error locations inside the source",
                 assumptions=["match patterns carry no span obligation"])
@@ -329,6 +335,8 @@ def c01(run, ck):
     out = os.path.join(run.work, "fuzz.ndjson")
     run.drive("fuzz", 40000 if run.thorough else 2500, out)
     verdicts, recs = run.validate(out, "Trace_Parse", cfg="Trace_Parse.cfg", parts=8, label="fuzz")
+    # only totality is C01's business: what the parse says about spans and error locations belongs to C02 / C18
+    verdicts = [v for v in verdicts if "crash" in v[2] or "panic" in v[2]]
     simple_violations(run, ck, verdicts, recs, "fuzz", describe=lambda rec, v: parse_shape(rec))
     out = os.path.join(run.work, "ladder.ndjson")
     run.drive("ladder", 1, out)
@@ -364,7 +372,9 @@ def c19(run, ck):
     verdicts, recs = run.validate(out, "Trace_Ser", cfg="Trace_Ser.cfg", parts=1, label="round trips")
     def describe(rec, v):
         text = rec.get("text", "")
-        kind = "nonfinite" if any(x in text for x in ("1.0/0.0", "0.0/0.0")) else "other"
+        # the recorded finding: a folded non-finite double is written to JSON as null, which cannot be read back as a double
+        msgs = " ".join(f.get("msg", "") for f in rec.get("fmts", []) if f.get("fmt") == "json")
+        kind = "nonfinite" if any(x in text for x in ("1.0/0.0", "0.0/0.0")) or "invalid type: null, expected f64" in msgs else "other"
         return "%s|%s" % (v[3] if len(v) > 3 else "", kind)
     simple_violations(run, ck, verdicts, recs, "ser", describe=describe)
     return dict(rule="constant programs holding every value type (extreme integers, non-finite doubles, bytes, nested lists/maps, types, timestamps and durations, error constants) and every instruction, plus generated programs, "
